@@ -134,6 +134,8 @@ def obj_root(v):
             v = t[2]
         elif t[0] == 'sym' and t[1] == 'app' and prims.classify(t[2])[0] in ('open_ro', 'open_rw') and len(t) > 4:
             v = t[4]
+        elif t[0] == 'sym' and t[1] == 'app' and prims.classify(t[2])[0] == 'fd_raw' and len(t) > 4:
+            v = t[4]        # the raw descriptor of a handle designates the same object
         else:
             return v
     return v
@@ -145,7 +147,14 @@ def outcome_edges(q, e, vname):
     res = ev.get('res')
     if res is None:
         return []
-    return q.edges(lambda x: x['k'] == 'refine' and x['val'] == res and x['vname'] == vname)
+
+    def owns(v):
+        if v == res:
+            return True
+        # an integer status converted to io::Result by a pure local helper: rc_to_error(libc::close(fd))
+        t = VAL[v]
+        return t[0] == 'sym' and t[1] == 'app' and t[2].startswith('local::') and res in t[4:]
+    return q.edges(lambda x: x['k'] == 'refine' and x['vname'] == vname and owns(x['val']))
 
 
 def outcomes(q, edges, vname):
